@@ -27,7 +27,7 @@ Definition th_facts1_b (g : shared) (T : list thread) (rp : pc) (th : thread) : 
                && (h_syn (tailh g x) =? h_wr (tailh g x))
   | PTrig x => (x =? g_cur g) && s_open (getst g x) && opt_none (g_await g)
   | PSend x => (x =? g_cur g) && s_open (getst g x) && negb (g_trig g) && negb (opt_none (g_await g)) && negb (rot_pend rp)
-  | PWaiting c | PRecvAwait c => opt_is (g_await g) c || opt_none (g_await g)
+  | PWaiting c | PRecvAwait c => (c <? length (g_chans g)) && (opt_is (g_await g) c || opt_none (g_await g))
   | PRelock => opt_none (g_await g)
   | PM0 k => s_open (getst g (g_cur g)) && krot_b g T k
   | PM1 y k | PM2 y k | PM3 y k => (y =? g_cur g) && s_open (getst g y) && krot_b g T k
@@ -90,3 +90,14 @@ Fixpoint lcg_sched (n : nat) (seed : N) (k : N) : list tid :=
   | S m => let seed' := ((seed * 1103515245 + 12345) mod 2147483648)%N in
            N.to_nat ((seed' / 65536) mod k)%N :: lcg_sched m seed' k
   end.
+
+(* a test, not a theorem: Inv1's executable mirror holds in every state along 80
+   pseudo-random schedules of 400 steps (writer, two readers/stable callers, two closers) *)
+Definition test_cfg : list (list op) :=
+  [[OStore true 1 1; OStore false 2 2; ODelete 1; OStore true 3 1; OTrunc 2; OStore true 4 2];
+   [OGet 1; OFirst; OGet 2]; [OClose]; [OLast; OClose; OSet]; [OSet; OGetS; OGet 1]].
+Definition test_inv1 (seed : N) : list (nat * list nat) :=
+  check_run (inv1_b 0 (length test_cfg)) (init test_cfg [])
+            (lcg_sched 400 seed (N.of_nat (S (length test_cfg)))) 0.
+Example inv1_holds_on_samples : flat_map test_inv1 (map N.of_nat (seq 1 80)) = [].
+Proof. vm_compute. reflexivity. Qed.
